@@ -8,6 +8,9 @@ the result must equal the model's treeReduce exactly, which pins parent/child ar
 Additionally: asyncs are issued and a free-function reduction is called without a barrier; all handlers must
 have run on every rank when it returns.  The mpi_typeof table and the per-collective sequence of MPI calls
 (barrier first) are compared with the model's tables."""
+import math
+import struct
+
 from lib import common as C
 
 META = {
@@ -26,14 +29,23 @@ META = {
             "(mpiAllreduce/mpiExscan/mpiBcast; MPI_Exscan leaves rank 0's receive buffer untouched) and the theorems named *_wrapper_* only show "
             "that YGM's use of them (operator, datatype via mpi_typeof, `T to_return{0}`, barrier first) yields the fold.  The serialiser is a "
             "parameter (round trip = C06).  'Completes all outstanding asyncs' is proved only structurally (barrier precedes the reduction; "
-            "quiescence is C02) and otherwise tested.  Floating point: integer-valued doubles only (exact under any bracketing).  Signed sums are "
+            "quiescence is C02) and otherwise tested.  Floating point: besides integer-valued doubles (exact under any bracketing) float and double are "
+            "run with rounding-sensitive inputs (1 / 1e16 / 0.1 mixes, large-after-small, values near FLT_MAX/DBL_MAX whose partial sums overflow, one "
+            "infinity; no NaN, no -0.0 inputs) and compared bit for bit.  ASSUMED there: the MPI reduction/scan of IEEE values is the LEFT FOLD IN RANK "
+            "ORDER with round-to-nearest IEEE arithmetic in the value's own format (what mpiAllreduce/mpiExscan state and simmpi does; the MPI standard "
+            "leaves the bracketing of non-associative operators open, so on another MPI the float sum oracle would have to be relaxed; min/max and the "
+            "exclusive-prefix *shape* do not depend on it).  Lean's Float/Float32 are opaque to the logic: no theorem is about IEEE arithmetic, the "
+            "proved generic definitions (allReduceOp, prefixSum, treeReduceL) are only executed with the IEEE operator as the fold parameter; the tree's "
+            "float sum is compared with the model's nesting, not with a fold.  The oracle's binary32 arithmetic is double arithmetic rounded to float "
+            "(innocuous double rounding, 53 >= 2*24+2).  Signed sums are "
             "generated without overflow (UB in C++).  Trusted: Lean kernel + propext/Classical.choice/Quot.sound, simmpi's collectives, the "
             "hand-written model on the sizes run (quick 1..8, thorough 1..17).",
 }
 
 RULE = ("for every communicator size R in the tier's box (as 1xR, composite sizes also NxP) and every round, all ranks derive the input vector "
         "from (seed, round, R) and call each collective once per value type; a case = (layout, round, test); non-trivial = R >= 2; "
-        "bcast from every root for int64/string/vector; is_same with all-equal / one-rank-differs / random inputs; async-completion: "
+        "float and double additionally with 3 rounding-sensitive input vectors per round (mixed magnitudes, near-overflow, one infinity, random "
+        "exponents, large-after-small) compared bit for bit; bcast from every root for int64/string/vector; is_same with all-equal / one-rank-differs / random inputs; async-completion: "
         "1..4 chains of 0..3 hops per rank, then one free function without a barrier")
 
 WIDTH = {"i8": (8, True), "i16": (16, True), "i32": (32, True), "i64": (64, True),
@@ -77,6 +89,39 @@ def fold(op, ty, xs):
     return acc
 
 
+# ---- IEEE values travel as hex bit patterns; arithmetic is redone here in the same format
+def f_dec(ty, tok):
+    if tok == "nan":
+        return math.nan
+    return struct.unpack("<f", struct.pack("<I", int(tok, 16)))[0] if ty == "f32" else struct.unpack("<d", struct.pack("<Q", int(tok, 16)))[0]
+
+
+def f_round(ty, x):
+    """round a double to the format (binary32: the double sum of two floats rounded once more is the correctly rounded float sum, 53 >= 2*24+2)"""
+    if ty == "f64" or x != x or math.isinf(x):
+        return x
+    try:
+        return struct.unpack("<f", struct.pack("<f", x))[0]
+    except OverflowError:
+        return math.copysign(math.inf, x)
+
+
+def f_enc(ty, x):
+    if x != x:
+        return "nan"
+    return "%08x" % struct.unpack("<I", struct.pack("<f", x))[0] if ty == "f32" else "%016x" % struct.unpack("<Q", struct.pack("<d", x))[0]
+
+
+def f_fold(op, ty, xs):
+    acc = xs[0]
+    for x in xs[1:]:
+        acc = f_round(ty, acc + x) if op == "SUM" else ((x if x < acc else acc) if op == "MIN" else (x if acc < x else acc))
+    return acc
+
+
+F_FAMILY = {"fall_reduce_sum": "SUM", "fall_reduce_min": "MIN", "fall_reduce_max": "MAX", "fsum": "SUM", "fmin": "MIN", "fmax": "MAX",
+            "ftree_SUM": "SUM", "ftree_MIN": "MIN", "ftree_MAX": "MAX"}
+
 FAMILY_OP = {"all_reduce_sum": "SUM", "all_reduce_min": "MIN", "all_reduce_max": "MAX", "sum": "SUM", "min": "MIN", "max": "MAX",
              "tree_SUM": "SUM", "tree_MIN": "MIN", "tree_MAX": "MAX", "tree_LAND": "LAND", "tree_LOR": "LOR"}
 
@@ -87,6 +132,22 @@ def expected(test, ins):
     n = len(ins)
     f = test.split(":")
     fam = f[0]
+    if fam == "ftree_SUM":
+        return None             # IEEE + is not associative: the property only demands agreement; the nesting is compared with the model
+    if fam in F_FAMILY:
+        # MPI-delegated IEEE sum: rank-order left fold (simmpi's order; MPI leaves the bracketing open); min/max are order-independent
+        ty = f[1]
+        return [f_enc(ty, f_fold(F_FAMILY[fam], ty, [f_dec(ty, x) for x in ins]))] * n
+    if fam == "fprefix_sum":
+        ty = f[1]
+        xs = [f_dec(ty, x) for x in ins]
+        out, acc = [], 0.0
+        for r in range(n):
+            out.append(f_enc(ty, acc))          # exclusive prefix, folded left to right in rank order; rank 0 gets +0.0
+            acc = xs[r] if r == 0 else f_round(ty, acc + xs[r])
+        return out
+    if fam == "fbcast":
+        return [ins[int(f[-1])]] * n
     if fam in FAMILY_OP:
         ty = f[1]
         xs = [int(x) for x in ins]
@@ -132,6 +193,14 @@ def model_line(test, ins):
     f = test.split(":")
     fam = f[0]
     v = " ".join(ins)
+    if fam.startswith("ftree_"):
+        return f"ftree {F_FAMILY[fam]} {f[1]} {v}"
+    if fam in F_FAMILY:
+        return f"fallreduce {F_FAMILY[fam]} {f[1]} {v}"
+    if fam == "fprefix_sum":
+        return f"fprefix {f[1]} {v}"
+    if fam == "fbcast":
+        return f"bcast {f[2]} {v}"
     if fam in ("all_reduce_sum", "all_reduce_min", "all_reduce_max", "sum", "min", "max"):
         return f"allreduce {FAMILY_OP[fam]} {f[1]} {v}"
     if fam in ("logical_and", "logical_or"):
@@ -305,7 +374,7 @@ def eval_vals(job, sr, res, use_model=True, only=None):
         else:
             if len(set(real)) != 1:
                 res.oracle_failures.append({"what": f"{test} on {R} ranks: ranks disagree", "signature": f"coll-disagree {fam} R={R}", "case": case})
-            elif pieces(test, real[0]) != sorted(sum((pieces(test, x) for x in ins), [])):
+            elif fam != "ftree_SUM" and pieces(test, real[0]) != sorted(sum((pieces(test, x) for x in ins), [])):
                 res.oracle_failures.append({"what": f"{test} on {R} ranks: result does not contain every rank's input exactly once",
                                             "signature": f"coll-contrib {fam} R={R}", "case": case})
         # ---- correspondence
@@ -464,7 +533,9 @@ def run(tier, seed, model_ok=True):
                        "MPI_Exscan leaves rank 0's receive buffer untouched",
                        "cereal round trip of the transferred values (property C06)",
                        "communicator sizes beyond the tier's box are covered by the theorems only",
-                       "signed integer sums are generated without overflow; doubles are integer-valued"]
+                       "signed integer sums are generated without overflow",
+                       "IEEE float/double sums and exclusive prefixes: MPI reduces as a left fold in rank order in the value's own format "
+                       "(true of simmpi; the MPI standard leaves the bracketing open)"]
     binary, err = C.build_harness("coll")
     if binary is None:
         res.corr_failures.append({"relation": "harness builds against /repo", "what": err[-800:], "case": None})
@@ -483,7 +554,7 @@ def run(tier, seed, model_ok=True):
         if job["mode"] == "vals" and not sampled and job["nodes"] * job["ppn"] == 5:
             tests, order = parse_vals(sr, 5)
             for k in order:
-                if k[1] in ("tree_paren", "prefix_sum:u8", "tree_SUM:i16") and tests[k]["in"]:
+                if k[1] in ("tree_paren", "prefix_sum:u8", "fprefix_sum:f64", "tree_SUM:i16") and tests[k]["in"]:
                     res.sample({"layout": [job["nodes"], job["ppn"]], "round": k[0], "test": k[1], "inputs": tests[k]["in"],
                                 "real_per_rank": [tests[k]["res"].get(r) for r in range(5)]})
             sampled = True
